@@ -291,6 +291,9 @@ pub fn shape(name: &str, s: usize) -> String {
             }
         }
         3 => format!("<vx:box {VX} type=\"Structure\"><vx:{name} type=\"String\">boxed</vx:{name}><vx:{name} type=\"Float\">2.5</vx:{name}></vx:box>"),
+        // no prefix at all: the element moves itself (and everything inside it) into the foreign
+        // namespace by declaring a new default namespace on its own start tag
+        5 => shape(name, 2).replace("vx:", "").replacen(&format!(" {VX}"), " xmlns=\"http://example.com/vendor-extension\"", 1),
         // a foreign wrapper whose content uses unprefixed names: whatever is inside a foreign
         // element belongs to that extension and must be ignored together with it
         _ => {
@@ -300,7 +303,7 @@ pub fn shape(name: &str, s: usize) -> String {
     }
 }
 
-/// X1 elements: every insertion position x every standard local name x 5 shapes
+/// X1 elements: every insertion position x every standard local name x 6 shapes
 pub fn elements(ctx: &Ctx) {
     let bk = ctx.pick("base-document", if ctx.tier_thorough { N_BASES + crate::scenes::N_SCENES } else { N_BASES });
     let d = match doc(bk) {
@@ -319,9 +322,9 @@ pub fn elements(ctx: &Ctx) {
     };
     let pi = ctx.pick("position", d.child_positions.len());
     let (parent, at) = d.child_positions[pi].clone();
-    ctx.describe(|| format!("base document {bk}: foreign element inserted into <{parent}> at XML byte {at}: every name of the list x 4 shapes"));
+    ctx.describe(|| format!("base document {bk}: foreign element inserted into <{parent}> at XML byte {at}: every name of the list x 6 shapes"));
     for (ni, name) in NAMES.iter().enumerate() {
-        for s in 0..5 {
+        for s in 0..6 {
             ctx.evals(1);
             let ins = shape(name, s);
             let mut nx = String::with_capacity(d.xml.len() + ins.len());
@@ -361,7 +364,7 @@ pub fn elements(ctx: &Ctx) {
             }
         }
     }
-    ctx.ops((NAMES.len() * 5 * base_report.len()) as u64);
+    ctx.ops((NAMES.len() * 6 * base_report.len()) as u64);
     ctx.count(format!("parent:{parent}"));
     ctx.observe_u64((bk * 100000 + pi) as u64);
     ctx.nontrivial();
